@@ -29,6 +29,7 @@ sub!(c12, "c12.rs");
 sub!(c05, "c05.rs");
 sub!(c03, "c03.rs");
 sub!(c09, "c09.rs");
+sub!(c08, "c08.rs");
 
 pub async fn main() -> Result<(), easy_error::Terminator> {
     let args: Vec<String> = std::env::args().collect();
@@ -46,6 +47,7 @@ pub async fn main() -> Result<(), easy_error::Terminator> {
         "c05" => c05::run(&mut out).await,
         "c03" => c03::run(&mut out).await,
         "c09" => c09::run(&mut out).await,
+        "c08" => c08::run(&mut out).await,
         _ => {
             eprintln!("unknown mode {}", mode);
             std::process::exit(2);
